@@ -130,6 +130,9 @@ impl<'a, 'ast> Visit<'ast> for Marker<'a> {
             let (es, ee) = nr(&*fl.expr);
             let open = br(fl.body.brace_token.span.open());
             let close = br(fl.body.brace_token.span.close());
+            let (ls, le) = nr(fl);
+            self.ins(ls, format!("/*@F{}:L{}:BEFORE@*/", fidx, k));
+            self.ins(le, format!("/*@F{}:L{}:AFTER@*/", fidx, k));
             self.ins(es, format!("/*@F{}:L{}:IT@*/", fidx, k));
             self.ins(ee, format!("/*@F{}:L{}:INV@*/", fidx, k));
             self.ins(open.1, format!("/*@F{}:L{}:START@*/", fidx, k));
